@@ -87,3 +87,17 @@ CHECKS["C02"] = {
          "shards": {"quick": 8, "thorough": 16}, "timeout": {"quick": 500, "thorough": 3400}},
     ],
 }
+
+CHECKS["C08"] = {
+    "level": "fault_enumeration",
+    "technique": "structure-aware JSON mutation of valid proof lists driven by rapid (shrinking) + hostile constants; native coverage-guided fuzzing of the decoders and of the mutator's choices in the thorough tier; oracle = no panic from any verification entry point, and ACCEPT only for documents semantically identical to the seed",
+    "level_text": "Valid documents of every shape (disclosure, issuance, blind attributes, non-revocation, 3- and 4-square range proofs, mixed lists, IssueCommitmentMessage; keys with and without revocation material) are mutated by 1..3 structural operators (delete, null, re-key to boundary indices, swap/copy sub-trees, array surgery, retype, integer replacement) and presented to ProofList.Verify (with/without labels, with a key too few) and to each element's Verify. Panics are grouped by innermost gabi frame.",
+    "level_note": "The l_d field of range proofs is excluded from the identity comparison (it only loosens size limits and is not bound by the challenge). Fuzzing campaigns are not seed-reproducible; the saved crasher is the replay unit.",
+    "rule": ("case = one mutated document presented to all entry points. Non-trivial: mutated documents that still decode (reach verification); distinct by the mutated document's bytes; classes name the sub-tree hit (main, maps, nonrev, range, issuance)."),
+    "assumptions": ["encoding/json", "seed documents are accepted unmutated (control on every case)"],
+    "units": [
+        {"pkg": "root", "run": "TestVF_C08_Mutator", "rapid": {"quick": 250, "thorough": 2500},
+         "shards": {"quick": 8, "thorough": 16}, "timeout": {"quick": 500, "thorough": 3400}},
+        {"pkg": "root", "run": "TestVF_C08_Hostile"},
+    ],
+}
